@@ -1336,6 +1336,262 @@ theorem incomparable_raises_num (a b : NNum) :
     exact ⟨o, by rw [ncmp_num, ho]⟩
 
 
+/-! ## strings: UTF-8 byte order is code point order -/
+
+theorem lex_cons (x y : Nat) (xs ys : List Nat) :
+    lexCmp natCmp (x :: xs) (y :: ys) =
+      if x < y then some .lt else if x = y then lexCmp natCmp xs ys else some .gt := by
+  simp only [lexCmp, natCmp]
+  rcases Nat.lt_trichotomy x y with h | h | h
+  · simp [Nat.compare_eq_lt.mpr h, h]
+  · subst h; simp
+  · have h1 : ¬ x < y := by omega
+    have h2 : ¬ x = y := by omega
+    simp [Nat.compare_eq_gt.mpr h, h1, h2]
+
+theorem lex_append_same (p x y : List Nat) : lexCmp natCmp (p ++ x) (p ++ y) = lexCmp natCmp x y := by
+  induction p with
+  | nil => rfl
+  | cons a p ih => simp [lex_cons, ih]
+
+theorem utf8Char_lt (c d : Nat) (hcd : c < d) (hd : d < 0x110000) (x y : List Nat) :
+    lexCmp natCmp (utf8Char c ++ x) (utf8Char d ++ y) = some .lt := by
+  unfold utf8Char
+  repeat' split
+  all_goals simp only [List.cons_append, List.nil_append, lex_cons]
+  all_goals (repeat' split)
+  all_goals first | rfl | omega
+
+
+theorem utf8Char_ne_nil (c : Nat) : utf8Char c ≠ [] := by
+  unfold utf8Char; repeat' split
+  all_goals simp
+
+theorem utf8_cons (c : Nat) (cs : List Nat) : utf8 (c :: cs) = utf8Char c ++ utf8 cs := by
+  simp [utf8, List.flatMap_cons]
+
+theorem lex_nil_left (l : List Nat) (h : l ≠ []) : lexCmp natCmp [] l = some .lt := by
+  cases l with
+  | nil => exact absurd rfl h
+  | cons _ _ => rfl
+
+theorem lex_nil_right (l : List Nat) (h : l ≠ []) : lexCmp natCmp l [] = some .gt := by
+  cases l with
+  | nil => exact absurd rfl h
+  | cons _ _ => rfl
+
+/-- **Rust compares strings by their UTF-8 bytes; that is the order by code point** (for Unicode
+scalar values: UTF-8 is order preserving) -/
+theorem utf8_order (a b : List Nat) (ha : ∀ c ∈ a, c < 0x110000) (hb : ∀ c ∈ b, c < 0x110000) :
+    lexCmp natCmp (utf8 a) (utf8 b) = lexCmp natCmp a b := by
+  induction a generalizing b with
+  | nil =>
+    cases b with
+    | nil => rfl
+    | cons d ds =>
+      rw [utf8_cons]
+      simp only [utf8, List.flatMap_nil]
+      rw [lex_nil_left]
+      · rfl
+      · intro h; exact utf8Char_ne_nil d (List.append_eq_nil_iff.mp h).1
+  | cons c cs ih =>
+    cases b with
+    | nil =>
+      rw [utf8_cons]
+      simp only [utf8, List.flatMap_nil]
+      rw [lex_nil_right]
+      · rfl
+      · intro h; exact utf8Char_ne_nil c (List.append_eq_nil_iff.mp h).1
+    | cons d ds =>
+      have hc : c < 0x110000 := ha c (List.mem_cons_self ..)
+      have hd : d < 0x110000 := hb d (List.mem_cons_self ..)
+      rw [utf8_cons, utf8_cons, lex_cons]
+      rcases Nat.lt_trichotomy c d with h | h | h
+      · rw [utf8Char_lt c d h hd, if_pos h]
+      · subst h
+        rw [lex_append_same, ih ds (fun x hx => ha x (List.mem_cons_of_mem _ hx))
+          (fun x hx => hb x (List.mem_cons_of_mem _ hx))]
+        simp
+      · have := lexCmp_swap natCmp_swap (utf8Char d ++ utf8 ds) (utf8Char c ++ utf8 cs)
+        rw [utf8Char_lt d c h hc] at this
+        rw [this]
+        have h1 : ¬ c < d := by omega
+        have h2 : ¬ c = d := by omega
+        simp [h1, h2]
+
+
+/-! ## Impl = Spec on values -/
+
+/- well-formed values without dictionaries (`==` on dictionaries is C09's subject): `Small`
+integers hold an i64, string elements are Unicode scalar values -/
+mutual
+def ValOK : Val → Prop
+  | .null => True
+  | .num n => n.WF
+  | .str cs => ∀ c ∈ cs, c < 0x110000
+  | .bytes _ => True
+  | .vec xs => ∀ n ∈ xs, NNum.WF n
+  | .list xs => ValOKList xs
+  | .dict _ _ => False
+  | .func _ => True
+def ValOKList : List Val → Prop
+  | [] => True
+  | x :: xs => ValOK x ∧ ValOKList xs
+end
+
+theorem partialCmp_funext : NNum.partialCmp = numCmp := by
+  funext a b; exact num_partialCmp_exact a b
+
+theorem listEq_numEq (xs ys : List NNum) (hx : ∀ n ∈ xs, NNum.WF n) (hy : ∀ n ∈ ys, NNum.WF n) :
+    listEq NNum.eq xs ys = listEq numEq xs ys := by
+  induction xs generalizing ys with
+  | nil => cases ys <;> rfl
+  | cons x xs ih =>
+    cases ys with
+    | nil => rfl
+    | cons y ys =>
+      simp only [listEq]
+      rw [num_eq_exact x y (hx x (List.mem_cons_self ..)) (hy y (List.mem_cons_self ..)),
+        ih ys (fun n hn => hx n (List.mem_cons_of_mem _ hn)) (fun n hn => hy n (List.mem_cons_of_mem _ hn))]
+
+mutual
+/-- **lex_cmp_correct / Impl = Spec for the order on values**: numbers by exact value, strings by
+code point, bytes / vectors / lists lexicographically by the same element order -/
+theorem valCmp_eq_spec (a b : Val) (ha : ValOK a) (hb : ValOK b) : valCmp a b = OrdSpec.cmp a b := by
+  cases a with
+  | null => cases b <;> rfl
+  | num x => cases b <;> simp only [valCmp, OrdSpec.cmp]; exact num_partialCmp_exact x _
+  | str x => cases b <;> simp only [valCmp, OrdSpec.cmp]; exact utf8_order x _ ha hb
+  | bytes x => cases b <;> rfl
+  | vec x => cases b <;> simp only [valCmp, OrdSpec.cmp]; rw [partialCmp_funext]
+  | list xs => cases b <;> simp only [valCmp, OrdSpec.cmp]; exact valCmpList_eq_spec xs _ ha hb
+  | dict kvs d => cases b <;> rfl
+  | func i => cases b <;> rfl
+theorem valCmpList_eq_spec (xs ys : List Val) (hx : ValOKList xs) (hy : ValOKList ys) :
+    valCmpList xs ys = OrdSpec.cmpList xs ys := by
+  cases xs with
+  | nil => cases ys <;> rfl
+  | cons x xs =>
+    cases ys with
+    | nil => rfl
+    | cons y ys =>
+      simp only [ValOKList] at hx hy
+      simp only [valCmpList, OrdSpec.cmpList]
+      rw [valCmp_eq_spec x y hx.1 hy.1, valCmpList_eq_spec xs ys hx.2 hy.2]
+      cases OrdSpec.cmp x y with
+      | none => rfl
+      | some o => cases o <;> rfl
+end
+
+mutual
+/-- **Impl = Spec for `==` on values** -/
+theorem valEq_eq_spec (a b : Val) (ha : ValOK a) (hb : ValOK b) : valEq a b = OrdSpec.eq a b := by
+  cases a with
+  | null => cases b <;> rfl
+  | num x => cases b <;> simp only [valEq, OrdSpec.eq]; exact num_eq_exact x _ ha hb
+  | str x => cases b <;> rfl
+  | bytes x => cases b <;> rfl
+  | vec x => cases b <;> simp only [valEq, OrdSpec.eq]; exact listEq_numEq x _ ha hb
+  | list xs => cases b <;> simp only [valEq, OrdSpec.eq]; exact valEqList_eq_spec xs _ ha hb
+  | dict kvs d => exact absurd ha (by simp [ValOK])
+  | func i => cases b <;> rfl
+theorem valEqList_eq_spec (xs ys : List Val) (hx : ValOKList xs) (hy : ValOKList ys) :
+    valEqList xs ys = OrdSpec.eqList xs ys := by
+  cases xs with
+  | nil => cases ys <;> rfl
+  | cons x xs =>
+    cases ys with
+    | nil => rfl
+    | cons y ys =>
+      simp only [ValOKList] at hx hy
+      simp only [valEqList, OrdSpec.eqList]
+      rw [valEq_eq_spec x y hx.1 hy.1, valEqList_eq_spec xs ys hx.2 hy.2]
+end
+
+theorem ncmp_eq_spec (a b : Val) (ha : ValOK a) (hb : ValOK b) : ncmp a b = OrdSpec.ncmp a b := by
+  have h := valCmp_eq_spec a b ha hb
+  cases a <;> cases b <;> simp only [ncmp, OrdSpec.ncmp, Val.isSeq, Bool.and_self, Bool.and_false, Bool.false_and,
+    if_true, Bool.false_eq_true, if_false] <;> (try rw [← h]) <;> (try simp only [valCmp]) <;> (try rfl)
+
+/-- every comparison operator, `<=>` and `>=<` of the real code is the Spec's -/
+theorem cmpOp_eq_spec (op : String) (a b : Val) (ha : ValOK a) (hb : ValOK b) :
+    cmpOp op a b = OrdSpec.cmpOp op a b := by
+  unfold cmpOp OrdSpec.cmpOp
+  rw [valEq_eq_spec a b ha hb, ncmp_eq_spec a b ha hb]
+  split <;> (try rfl) <;>
+    (cases OrdSpec.ncmp a b <;> simp only [Out.map] <;> (try rfl) <;> (rename_i o; cases o <;> rfl))
+
+
+/-! ## `NNum::min` / `NNum::max` (total orders with NaN as largest / smallest) -/
+
+theorem isNan_realValue (a : NReal) : a.isNan = (realValue a).isNone := by
+  cases a with
+  | int a => rfl
+  | rat q => rfl
+  | float f => rcases f with _ | ⟨_ | _⟩ | ⟨m, e⟩ | _ <;> rfl
+
+theorem getD_big (x y : Option ERat) :
+    (optCmp x y).getD (NReal.boolCmp x.isNone y.isNone) = compTotalCmp false x y := by
+  cases x <;> cases y <;> simp [optCmp, NReal.boolCmp, compTotalCmp, compKey, Ordering.then, ERatL.cmp_refl] <;> rfl
+
+theorem getD_small (x y : Option ERat) :
+    (optCmp x y).getD (NReal.boolCmp y.isNone x.isNone) = compTotalCmp true x y := by
+  cases x <;> cases y <;> simp [optCmp, NReal.boolCmp, compTotalCmp, compKey, Ordering.then, ERatL.cmp_refl] <;> rfl
+
+theorem totalCmpBigNan_eq (a b : NReal) :
+    NReal.totalCmpBigNan a b = (NReal.partialCmp a b).getD (NReal.boolCmp a.isNan b.isNan) := by
+  cases a <;> cases b <;> simp only [NReal.totalCmpBigNan, NReal.partialCmp, NReal.isNan, Option.getD_some]
+  · rename_i a f
+    cases h : cmpNIntF64 a f with
+    | some o => rfl
+    | none =>
+      rw [cmp_nint_f64_exact] at h
+      rcases f with _ | ⟨_ | _⟩ | ⟨m, e⟩ | _ <;> simp [realValue, optCmp] at h
+      rfl
+  · rename_i f b
+    cases h : cmpNIntF64 b f with
+    | some o => rfl
+    | none =>
+      rw [cmp_nint_f64_exact] at h
+      rcases f with _ | ⟨_ | _⟩ | ⟨m, e⟩ | _ <;> simp [realValue, optCmp] at h
+      rfl
+
+theorem totalCmpSmallNan_eq (a b : NReal) :
+    NReal.totalCmpSmallNan a b = (NReal.partialCmp a b).getD (NReal.boolCmp b.isNan a.isNan) := by
+  cases a <;> cases b <;> simp only [NReal.totalCmpSmallNan, NReal.partialCmp, NReal.isNan, Option.getD_some]
+  · rename_i a f
+    cases h : cmpNIntF64 a f with
+    | some o => rfl
+    | none =>
+      rw [cmp_nint_f64_exact] at h
+      rcases f with _ | ⟨_ | _⟩ | ⟨m, e⟩ | _ <;> simp [realValue, optCmp] at h
+      rfl
+  · rename_i f b
+    cases h : cmpNIntF64 b f with
+    | some o => rfl
+    | none =>
+      rw [cmp_nint_f64_exact] at h
+      rcases f with _ | ⟨_ | _⟩ | ⟨m, e⟩ | _ <;> simp [realValue, optCmp] at h
+      rfl
+
+theorem nreal_totalCmpBigNan_exact (a b : NReal) :
+    NReal.totalCmpBigNan a b = compTotalCmp false (realValue a) (realValue b) := by
+  rw [totalCmpBigNan_eq, nreal_partialCmp_exact, isNan_realValue, isNan_realValue, getD_big]
+
+theorem nreal_totalCmpSmallNan_exact (a b : NReal) :
+    NReal.totalCmpSmallNan a b = compTotalCmp true (realValue a) (realValue b) := by
+  rw [totalCmpSmallNan_eq, nreal_partialCmp_exact, isNan_realValue, isNan_realValue, getD_small]
+
+/-- `NNum::min` / `NNum::max` (Rust API; the language's `min`/`max` are `min_max_agree`) pick by
+the exact values, a NaN loses against every number, ties go left (`min`) / right (`max`) -/
+theorem num_min_max_exact (a b : NNum) : NNum.min a b = numMin a b ∧ NNum.max a b = numMax a b := by
+  unfold NNum.min NNum.max numMin numMax NNum.totalCmpBigNan NNum.totalCmpSmallNan numTotalCmp
+  simp only [nreal_totalCmpBigNan_exact, nreal_totalCmpSmallNan_exact, re_project, im_project]
+  constructor
+  · cases (compTotalCmp false (reVal a) (reVal b)).then (compTotalCmp false (imVal a) (imVal b)) <;> rfl
+  · cases (compTotalCmp true (reVal a) (reVal b)).then (compTotalCmp true (imVal a) (imVal b)) <;> rfl
+
+
 /-! ## non-vacuity: the hypotheses are met by the boundary cases the property names -/
 example : NNum.partialCmp (.int (.small 9007199254740993)) (.float (.fin 1 53)) = some .gt := by decide +kernel
 example : NNum.eq (.int (.small 9007199254740993)) (.float (.fin 1 53)) = false := by decide +kernel
@@ -1353,5 +1609,9 @@ example : (extremum .gt [.num (.int (.small 1)), .num (.float (.fin 1 0)), .num 
 example : (sorted valCmp [.num (.int (.small 3)), .num (.float (.fin 5 (-1))), .num (.rat (1/3))]).map (List.map numOf)
     = .ok [some (.rat (1/3)), some (.float (.fin 5 (-1))), some (.int (.small 3))] := by decide +kernel
 example : ncmp (.num (.float .nan)) (.num (.int (.small 1))) = .throw := by decide +kernel
+
+example : ValOK (.list [.str [0xe9, 0x10000], .num (.int (.big (2^64))), .vec [.rat (1/2)]]) := by
+  simp [ValOK, ValOKList, NNum.WF, NInt.WF]
+example : valCmp (.str [0xffff]) (.str [0x10000]) = some .lt := by decide +kernel
 
 end Noulith.C08
